@@ -147,12 +147,12 @@ Lemma kpc_ext c c' m : c_lower c' = c_lower c -> c_upper c' = c_upper c -> kpc c
 Proof. unfold kpc. intros -> ->. reflexivity. Qed.
 
 (* monotonicity: kept under a tighter upper bound => kept under the looser one *)
-Lemma kpc_mono c c' m : bok c' -> gd m ->
+Lemma kpc_mono c c' m : bok c' ->
   c_lower c' = c_lower c ->
   (forall u, c_upper c = Some u -> exists u', c_upper c' = Some u' /\ ole u' u) ->
   kpc c' m = true -> kpc c m = true.
 Proof.
-  intros Bk (Vm & Tm & Bm) El Eu. unfold kpc. rewrite El.
+  intros Bk El Eu. unfold kpc. rewrite El.
   intros K. apply andb_true_iff in K. destruct K as (K1 & K2). rewrite K1. cbn [andb].
   destruct (c_upper c) as [u|] eqn:Hu; [|reflexivity].
   destruct (Eu u eq_refl) as (u' & Hu' & Le). rewrite Hu' in K2.
@@ -163,10 +163,10 @@ Proof.
 Qed.
 
 (* the variable has meanwhile been resolved to its lower bound *)
-Lemma kpc_bound_mono c o m : bok c -> gd m -> c_lower c = Some o ->
+Lemma kpc_bound_mono c o m : bok c -> c_lower c = Some o ->
   kpo o m = true -> kpc c m = true.
 Proof.
-  intros (Bl & Bu & Blu) (Vm & Tm & Bm) El K. unfold kpc. rewrite El.
+  intros (Bl & Bu & Blu) El K. unfold kpc. rewrite El.
   destruct (Bl o El) as (Vo & NBo & NTo).
   assert (Lo : ole o m).
   { unfold kpo in K. apply orb_true_iff in K. destruct K as [K|K].
@@ -376,7 +376,56 @@ Proof.
   intros Bk Va NB El Eu. unfold vdv. destruct (a =? Top) eqn:ET; [auto|].
   apply Nat.eqb_neq in ET.
   destruct (kpc c' a) eqn:K'; [|intros X; exfalso; apply X; reflexivity].
-  rewrite (kpc_mono c c' a Bk (conj Va (conj ET NB)) El Eu K'). auto.
+  rewrite (kpc_mono c c' a Bk El Eu K'). auto.
+Qed.
+
+(* the verdict does not depend on the fuel once there is enough of it *)
+Lemma match_base_fuel f s sub r a : basic H a = true ->
+  match_f H (S f) s sub false r (O a []) = match_f H 1 s sub false r (O a []).
+Proof.
+  intros Ba. cbn [match_f]. rewrite Lub.follow_O.
+  destruct (follow s r) as [w|o xs]; [reflexivity|].
+  destruct (sub && ((o =? Bottom) || (a =? Top))); [reflexivity|].
+  destruct (basic H o) eqn:Bo; [reflexivity|].
+  destruct (negb (o =? a)) eqn:En; [reflexivity|].
+  apply negb_false_iff, Nat.eqb_eq in En. subst o. congruence.
+Qed.
+
+Lemma occurs_base_fuel f s a b : 
+  occurs_f H (S (S f)) s (O a []) b = occurs_f H 2 s (O a []) b.
+Proof.
+  cbn [occurs_f]. rewrite Lub.follow_O.
+  assert (E : match_f H (S f) s false false (O a []) (follow s b) = match_f H 1 s false false (O a []) (follow s b)).
+  { cbn [match_f]. rewrite Lub.follow_O.
+    destruct (follow s (follow s b)) as [w|o xs]; [reflexivity|].
+    cbn [andb]. destruct (basic H a); [reflexivity|]. destruct (negb (a =? o)); [reflexivity|].
+    destruct (variance H a); reflexivity. }
+  rewrite E. reflexivity.
+Qed.
+
+Lemma pfc_fuel n s k a : k_alts k = [O a []] -> basic H a = true ->
+  pfc H n s k = PErr EFuel \/ pfc H n s k = pfc H 4 s k.
+Proof.
+  intros Ea Ba.
+  assert (G : forall f, pfc H (4 + f) s k = pfc H 4 s k).
+  { intros f. cbn [plus pfc]. rewrite Ea.
+    assert (U : ubase H (S (S (S f))) s (k_ref k) a = ubase H 3 s (k_ref k) a).
+    { cbn [ubase]. destruct (follow s (k_ref k)); [|reflexivity].
+      rewrite (occurs_base_fuel f). reflexivity. }
+    rewrite U. rewrite !(match_base_fuel (S (S f))), !(match_base_fuel 2) by exact Ba. reflexivity. }
+  destruct n as [|[|[|[|n]]]]; [left; reflexivity| | | |right; apply (G n)].
+  - cbn [pfc]. rewrite Ea. cbn [ubase]. left. reflexivity.
+  - cbn [pfc]. rewrite Ea. cbn [ubase].
+    destruct (follow s (k_ref k)) as [w|o xs] eqn:Ef.
+    + destruct (a =? Top) eqn:ET; [|left; reflexivity].
+      right. rewrite !(match_base_fuel 2) by exact Ba. reflexivity.
+    + right. rewrite !(match_base_fuel 2) by exact Ba. reflexivity.
+  - cbn [pfc]. rewrite Ea. cbn [ubase].
+    destruct (follow s (k_ref k)) as [w|o xs] eqn:Ef.
+    + destruct (a =? Top) eqn:ET.
+      * right. rewrite !(match_base_fuel 2), !(match_base_fuel 1) by exact Ba. reflexivity.
+      * left. cbn [occurs_f]. reflexivity.
+    + right. rewrite !(match_base_fuel 2), !(match_base_fuel 1) by exact Ba. reflexivity.
 Qed.
 
 End A.
